@@ -61,6 +61,10 @@ func (e *Encoder) Encode(v any, tagName string) (err error) {
 }
 
 func (e *Encoder) marshal(val reflect.Value, tagType byte) error {
+	if tagType == TagEnd {
+		// no value has this tag: a Marshaler reporting it (zero RawMessage, nil *dynbt.Value) has nothing to write
+		return errors.New("unsupported type 0x0")
+	}
 	if val.CanInterface() {
 		if encoder, ok := val.Interface().(Marshaler); ok {
 			return encoder.MarshalNBT(e.w)
